@@ -338,15 +338,20 @@ def render(doc):
             if kind == 'meta':
                 style = s['style']
 
-                if style == 'nonascii' and (eff or raw_codec) != 'utf-8':
-                    # raw non-ASCII JSON only where every character is
-                    # encodable and no code unit can look like a newline
+                if style == 'nonascii' and \
+                        len(spec.nl_bytes('unix', eff or raw_codec)) > 1:
+                    # raw non-ASCII JSON only where no code unit can look
+                    # like a newline (single-byte codecs and UTF-8)
                     style = 'canonical'
 
                 if style == 'nonascii':
                     try:
-                        json_text(s['value'], style).encode('utf-8')
-                    except UnicodeError:      # lone surrogates
+                        t = json_text(s['value'], style)
+
+                        if t.encode(eff or raw_codec).decode(
+                                eff or raw_codec) != t:
+                            style = 'canonical'
+                    except UnicodeError:      # not encodable here
                         style = 'canonical'
 
                 if d == 'bad-json':
@@ -433,8 +438,11 @@ def render(doc):
             if kind == 'meta':
                 fmt = s.get('format')
 
-                if d == 'format-html':
-                    fmt = 'html'
+                if d and d.startswith('format-'):
+                    fmt = {'format-html': 'html', 'format-0': '0',
+                           'format-00': '00', 'format-upper': 'JSON',
+                           'format-none': 'None',
+                           'format-prefix': 'js'}[d]
 
                 if fmt is not None:
                     pairs.append(('format', fmt))
@@ -615,6 +623,8 @@ def applicable_defects(doc):
 
         if kind == 'meta':
             out.append((i, 'format-html'))
+            out.append((i, ['format-0', 'format-00', 'format-upper',
+                            'format-none', 'format-prefix'][i % 5]))
             out.append((i, 'bad-json'))
             out.append((i, 'bad-json-bytes'))
 
